@@ -41,9 +41,15 @@ RULE = ("One case = (system, prior (x,P), Q, R, input u, measurement y[, k | par
         "measurements drawn from the particle model, signal-to-noise 1e-2..1e2. distinct = distinct bit "
         "patterns of the case arrays; trivial = zero Kalman gain (C == 0).")
 ASSUME = ["oracle: closed-form Kalman recursion in x86 longdouble (Joseph form, Gaussian elimination), validated "
-          "each run against a float64 information-form posterior and a brute-force quadrature",
-          "float64 only; tolerances c*u*scale with u = 2^-53 and scale the first-order rounding-error model of the "
-          "documented recursion (cond(S) enters once via |K||S||S^-1|; UKF additionally sum|w| and |x|/sqrt|P|)",
+          "each run against a float64 information-form posterior; particle-model closed form validated each run "
+          "against trapezoidal quadrature (and once, offline, against 4e4 brute-force replications: std of z = 1.000)",
+          "float64 only; tolerances 8*u*L*scale with u = 2^-53, L = n+m+p (+2n+1 for UKF) the length of the inner "
+          "products and scale the first-order rounding-error model of the documented recursion (cond(S) enters once "
+          "via 16|K||S||S^-1|, 16 = measured constant of the SVD-based pinv; UKF additionally sum|w| = (|k|+n)/(n+k) "
+          "and |x|/sqrt|P|); cases whose tolerance exceeds 1e-9|P+| are judged but tallied separately (reltol>1e-9)",
+          "self-fed runs: a prior that is the filter's own (slightly asymmetric) output widens the one-step tolerance "
+          "by the first-order image of |P-P'|; the parallel-recursion bound is sum_j |F_k..F_j+1|^2 tol_j and is used "
+          "only while it stays below 1e-6 relative",
           "UKF cases whose predicted covariance cannot be Cholesky-factorised reliably in float64 (error model of "
           "P^- above 1% of lambda_min(P^-)) are discarded and counted, not judged",
           "PF oracle stated through the system's own one-step call (x', yhat) = system(x_i, u) (DESIGN section 2): "
@@ -399,8 +405,8 @@ def pick_k(rng, n, name):
 
 
 def regime_of(c):
-    """Case split named in the evidence (dimensions, measurement kind, x offset are tallied as marks)."""
-    return (f"A:{c['a_kind']}/C:{c['c_kind']}/P:{c['p_kind']}/"
+    """Case split named in the evidence (dimensions, C kind, measurement kind, x offset: tallied as marks)."""
+    return (f"A:{c['a_kind']}/P:{c['p_kind']}/"
             f"PQR:{cls_scale(c['scales'][0])}-{cls_scale(c['scales'][1])}-{cls_scale(c['scales'][2])}")
 
 
